@@ -18,11 +18,11 @@ using boost::system::error_code;
 
 namespace {
 
-enum ObjKind { O_TIMER = 0, O_CLIENT = 1, O_ACCEPTOR = 2, O_SLOT = 3, O_UDP = 4, O_RES_T = 5, O_RES_U = 6 };
+enum ObjKind { O_TIMER = 0, O_CLIENT = 1, O_ACCEPTOR = 2, O_SLOT = 3, O_UDP = 4, O_RES_T = 5, O_RES_U = 6, O_MISC = 7 };
 enum OpKind { P_TIMER = 0, P_CONNECT, P_READ, P_WRITE, P_WAIT_READ, P_ACCEPT, P_UDP_RECV, P_UDP_WAIT_R, P_UDP_WAIT_W, P_RESOLVE };
 enum IvKind { I_NONE = 0, I_CANCEL = 1, I_CLOSE = 2, I_DESTROY = 3, I_SUPERSEDE = 4, I_MOVE = 5, I_THROW = 6 };
 char const* const k_iv_names[] = {"none", "cancel", "close", "destroy", "supersede", "move", "throw"};
-char const* const k_obj_names[] = {"timer", "tcp_client", "acceptor", "accepted_socket", "udp_socket", "tcp_resolver", "udp_resolver"};
+char const* const k_obj_names[] = {"timer", "tcp_client", "acceptor", "accepted_socket", "udp_socket", "tcp_resolver", "udp_resolver", "closed_or_unconnected_object"};
 char const* const k_op_names[] = {"timer_wait", "connect", "read", "write", "wait_read", "accept", "udp_receive", "udp_wait_read", "udp_wait_write", "resolve"};
 
 int const k_nt = 2, k_nc = 2, k_ns = 2, k_nu = 2;
@@ -263,6 +263,68 @@ struct World
 		else if (o.op == "udp_recv") start_udp_recv(int(uint64_t(o.a) % k_nu), int(uint64_t(o.b) % 4));
 		else if (o.op == "udp_send") do_udp_send(int(uint64_t(o.a) % k_nu), int(uint64_t(o.b) % k_nu), o.c);
 		else if (o.op == "resolve") start_resolve(int(o.a & 1), int(uint64_t(o.b) % 4));
+		else if (o.op == "zombie") start_on_dead_object(int(uint64_t(o.a) % 10), o.b);
+	}
+
+	// operations started on objects that cannot make progress - a closed or never opened acceptor, an unopened
+	// or unconnected socket, a connect across address families, a timer whose expiry has passed: they complete
+	// at once, which is where "never from inside the initiating call" is easiest to get wrong. These objects are
+	// no intervention targets; the handler discipline applies to them like to every other operation.
+	std::unique_ptr<tcp::acceptor> z_acc;
+	std::unique_ptr<tcp::socket> z_into, z_sock;
+	std::unique_ptr<udp::socket> z_udp;
+	std::unique_ptr<asio::high_resolution_timer> z_timer;
+	tcp::endpoint z_ep;
+	void start_on_dead_object(int kind, int64_t how)
+	{
+		Obj const me{O_MISC, kind};
+		if (outstanding_on(me)) return; // its object is replaced below
+		error_code ec;
+		Init in(this);
+		if (kind <= 2)
+		{
+			for (int k = 0; k <= 2; ++k) if (outstanding_on(Obj{O_MISC, k})) return;
+			z_acc.reset(new tcp::acceptor(*nodeB));
+			if (how & 1) { z_acc->open(tcp::v4(), ec); z_acc->bind(tcp::endpoint(addrB, 7100), ec); z_acc->listen(5, ec); z_acc->close(ec); }
+			if (kind != 2) z_into.reset(new tcp::socket(*nodeB));
+			auto r = new_rec(P_ACCEPT, me);
+			r->aux = -1;
+			if (kind == 0) z_acc->async_accept(*z_into, Tracked(r, this));
+			else if (kind == 1) z_acc->async_accept(*z_into, z_ep, Tracked(r, this));
+			else z_acc->async_accept(Tracked(r, this));
+			return;
+		}
+		if (kind <= 6)
+		{
+			for (int k = 3; k <= 6; ++k) if (outstanding_on(Obj{O_MISC, k})) return;
+			z_sock.reset(new tcp::socket(*nodeA));
+			if (how & 1) z_sock->open(tcp::v4(), ec); // open but not connected
+			bufs.emplace_back(new std::vector<uint8_t>(256, uint8_t(0x33)));
+			if (kind == 3) z_sock->async_read_some(asio::buffer(*bufs.back()), Tracked(new_rec(P_READ, me), this));
+			else if (kind == 4) z_sock->async_write_some(asio::buffer(*bufs.back()), Tracked(new_rec(P_WRITE, me), this));
+			else if (kind == 5) z_sock->async_wait(tcp::socket::wait_read, Tracked(new_rec(P_WAIT_READ, me), this));
+			else
+			{
+				// a connect that cannot even start: the socket is bound to an IPv4 address, the target is IPv6
+				z_sock->open(tcp::v4(), ec);
+				z_sock->bind(tcp::endpoint(addrA, 0), ec);
+				z_sock->async_connect(tcp::endpoint(ip::make_address_v6("ff::1"), 7000), Tracked(new_rec(P_CONNECT, me), this));
+			}
+			return;
+		}
+		if (kind <= 8)
+		{
+			for (int k = 7; k <= 8; ++k) if (outstanding_on(Obj{O_MISC, k})) return;
+			z_udp.reset(new udp::socket(*nodeA));
+			if (how & 1) z_udp->open(udp::v4(), ec); // open but not bound
+			bufs.emplace_back(new std::vector<uint8_t>(256));
+			if (kind == 7) z_udp->async_receive(asio::buffer(*bufs.back()), Tracked(new_rec(P_UDP_RECV, me), this));
+			else z_udp->async_wait(udp::socket::wait_read, Tracked(new_rec(P_UDP_WAIT_R, me), this));
+			return;
+		}
+		z_timer.reset(new asio::high_resolution_timer(*nodeA));
+		z_timer->expires_at(sim::chrono::high_resolution_clock::now() - duration(how & 1 ? 0 : 5000000));
+		z_timer->async_wait(Tracked(new_rec(P_TIMER, me), this));
 	}
 
 	void start_timer(int i, int64_t delay)
@@ -456,12 +518,14 @@ struct World
 			case O_UDP: return bool(udps[o.idx]);
 			case O_RES_T: return bool(res_t);
 			case O_RES_U: return bool(res_u);
+			default: break;
 		}
 		return false;
 	}
 
 	static bool applicable(int iv, Obj o)
 	{
+		if (o.kind == O_MISC) return false;
 		switch (iv)
 		{
 			case I_CANCEL: return true;
@@ -682,6 +746,7 @@ struct World
 		acceptor.reset();
 		for (auto& u : udps) u.reset();
 		res_t.reset(); res_u.reset();
+		z_acc.reset(); z_into.reset(); z_sock.reset(); z_udp.reset(); z_timer.reset();
 		by_timer.reset(); by_cli.reset(); by_srv.reset(); by_acc.reset();
 		nodeA.reset(); nodeB.reset(); nodeC.reset(); nodeD.reset();
 		sim.reset();
@@ -702,14 +767,14 @@ void Tracked::fire(error_code const& ec)
 	if (w->initiating > 0) r->inline_call = true;
 	armed = false;
 	// a server that greets: write on the accepted socket as soon as the accept completes
-	if (r->op == P_ACCEPT && !ec && w->plan.c("accept_write") && w->slots[r->aux] && w->slots[r->aux]->is_open())
+	if (r->op == P_ACCEPT && !ec && r->aux >= 0 && w->plan.c("accept_write") && w->slots[r->aux] && w->slots[r->aux]->is_open())
 		w->start_write(k_nc + r->aux, w->plan.c("accept_write"));
 	w->throw_next_check();
 }
 
 void Tracked::operator()(error_code const& ec, tcp::socket s)
 {
-	if (!ec) w->accepted_socket(r ? r->aux : 0, std::move(s));
+	if (!ec && (!r || r->aux >= 0)) w->accepted_socket(r ? r->aux : 0, std::move(s));
 	fire(ec);
 }
 
@@ -806,6 +871,8 @@ struct LifecycleEngine : Engine
 			else if (u < 0.985) add("tcancel", int64_t(rng.below(2)), 0, 0, at);
 			else add("twait", int64_t(rng.below(2)), 0, 0, at);
 			if (rng.chance(0.06)) add("close", int64_t(rng.below(4)), 0, 0, gap());
+			// operations on closed, unopened or unconnected objects, started from inside a running handler
+			if (rng.chance(0.12)) add("zombie", int64_t(rng.below(10)), int64_t(rng.below(2)), 0, rng.pick(std::vector<int64_t>{1000, 1000000, 7000000}));
 		}
 		return p;
 	}
